@@ -85,6 +85,32 @@ VJ = ["top", "center", "bottom", ""]
         bounds="border width 0..1000 symbolic (kept symbolic through rendering), style symbolic, colour set/unset",
         what="a border emits its style word, \\brdrw<width> and, when coloured, \\brdrcf<index of that colour>"))
     obs.append(Ob(
+        oid="O2.border_colour_history", sig="k1: int, k2: int, w: int", pre=["0 <= k1 <= 3 and 0 <= k2 <= 3", "1 <= w <= 60"], header=HDR_E + r"""
+from rtflite.services.color_service import color_service as svc
+PALETTES = [None, ["red"], ["blue", "red"], ["blue", "green", "red"]]
+""", templates=True, timeout=T,
+        body=r"""
+    holes_reset()
+    ok = True
+    try:
+        for k in (k1, k2):
+            pal = pick(PALETTES, k)
+            svc.set_document_context(used_colors=pal)
+            out = Border._as_rtf(Border.model_construct(style="single", width=w, color="red"))
+            m = re.fullmatch(r"\\brdrs\\brdrw(" + tpl.NUM + r")\\brdrcf(" + tpl.NUM + ")", out)
+            ok = ok and m is not None and tpl.hole_value(m.group(1)) == w and tpl.hole_value(m.group(2)) == Utils._get_color_index("red")
+            ok = ok and (pal is None or tpl.hole_value(m.group(2)) == len(pal))
+    finally:
+        svc.clear_document_context()
+    return ok
+""",
+        funcs=["rtflite.row:Border._as_rtf", "rtflite.services.color_service:ColorService.get_rtf_color_index"],
+        stubs=["Border -> model_construct"],
+        bounds="the same red border (symbolic width 1..60) emitted under two document palettes in a row (each none | {red} | {blue,red} | "
+               "{blue,green,red}; symbolic)",
+        what="the colour index a border emits is the colour's position in the CURRENT document's table - nothing is remembered from "
+             "the border emitted for an earlier document"))
+    obs.append(Ob(
         oid="O2.cell_emitter", sig="vj: int, bl: bool, bt: bool, br: bool, bb: bool", pre=["0 <= vj <= 3"], header=HDR_E, timeout=T,
         body=r'''
     vjust = pick(VJ, vj)
@@ -181,10 +207,11 @@ def expected(name, shape, r, c):
     obs.append(prep_ob("O4.attribute_slicing", T))
     # O5: across page breaks, page row i carries the attributes of table row row_start + i
     obs.append(Ob(
-        oid="O5.page_binding", sig="h0: int, h1: int, first_hdr: bool, shape: int", pre=["1 <= h0 <= 3", "1 <= h1 <= 2", "0 <= shape <= 3"],
+        oid="O5.page_binding", sig="h0: int, h1: int, first_hdr: bool, shape: int, which: int", pre=["1 <= h0 <= 3", "1 <= h1 <= 2", "0 <= shape <= 3", "0 <= which <= 2"],
         header=HDR9 + r'''
 from rtflite.encoding.unified_encoder import UnifiedRTFEncoder
 from rtflite.pagination.processor import PageFeatureProcessor
+from vf.h_paginate import run_paginate
 NROW, NCOL = 5, 2
 FMT = [["", "b"], ["i", ""], ["b", "i"], ["", ""], ["bi", "b"]]
 SIZE = [[6 + r, 10 + r] for r in range(NROW)]
@@ -205,9 +232,13 @@ def want(shape, name, r, c):
         body=r'''
     H0, H1, sh = concrete_int(h0, 1, 3), concrete_int(h1, 1, 2), concrete_int(shape, 0, 3)
     body = BODIES[sh].model_copy(deep=True)
-    full = FakeFrame({"a": ["a%d" % i for i in range(H0 + H1)], "b": ["b%d" % i for i in range(H0 + H1)]})
-    pages = [NS(data=full.slice(0, H0), table_attrs=body, is_first_page=True, is_last_page=False, component_borders={}, row_start=0),
-             NS(data=full.slice(0, H1), table_attrs=body, is_first_page=False, is_last_page=True, component_borders={}, row_start=0)]
+    n = H0 + H1
+    full = FakeFrame({"a": ["a%d" % i for i in range(n)], "b": ["b%d" % i for i in range(n)]})
+    # the pages come from the REAL strategy (symbolic choice) for a break after row H0-1, then go through the real post-processing
+    pages = run_paginate(concrete_int(which, 0, 2), [1] * H0 + [2] * H1, True,
+                         keys={"g": ["G"] * n, "s": ["S0"] * H0 + ["S1"] * H1}, table_attrs=body)
+    if len(pages) != 2:
+        return False
     UnifiedRTFEncoder._apply_data_post_processing(UnifiedRTFEncoder.__new__(UnifiedRTFEncoder), pages, full, NS(group_by=None))
     doc = NS(rtf_body=body, rtf_page=NS(border_first="double", border_last="double", page_footnote="last", page_source="last"),
              rtf_column_header=[object()] if first_hdr else [], rtf_footnote=None, rtf_source=None)
@@ -227,10 +258,14 @@ def want(shape, name, r, c):
         ok = ok and getattr(body, name) == getattr(ref, name)
     return ok
 ''',
-        funcs=["rtflite.encoding.unified_encoder:UnifiedRTFEncoder._apply_data_post_processing",
+        funcs=["rtflite.pagination.strategies.defaults:DefaultPaginationStrategy.paginate",
+               "rtflite.pagination.strategies.grouping:PageByStrategy.paginate", "rtflite.pagination.strategies.grouping:SublineStrategy.paginate",
+               "rtflite.encoding.unified_encoder:UnifiedRTFEncoder._apply_data_post_processing",
                "rtflite.pagination.processor:PageFeatureProcessor._apply_pagination_borders"],
-        stubs=["frames -> FakeFrame", "PageContext / document -> namespaces around a REAL RTFBody"],
-        bounds="a 5x2 table on two pages of symbolic heights (1..3, 1..2); text_format, text_font_size and border_left given as scalar | "
+        stubs=["frames -> FakeFrame / vf.minipl", "row metadata -> the page assignment under test", "PageContext / document -> namespaces "
+               "(real field defaults) around a REAL RTFBody"],
+        bounds="a table of 2..5 rows x 2 columns broken after a symbolic row into two pages (heights 1..3, 1..2) by the plain | page_by | "
+               "subline_by strategy (symbolic); text_format, text_font_size and border_left given as scalar | "
                "per-column vector | full matrix | 2-row pattern recycled down the table (symbolic choice)",
         what="the attributes a page renders with bind page row i to the values specified for table row row_start + i: the binding does "
              "not depend on where the page break falls"))
